@@ -1029,10 +1029,13 @@ class ProtobufWriter(Converter):
     def _convert_validation_result(
         self, result: unified_planning.engines.ValidationResult
     ) -> proto.ValidationResult:
+        log_messages = result.log_messages
+        if log_messages is None:
+            log_messages = []
         return proto.ValidationResult(
             status=self.convert(result.status),
             metrics=result.metrics,
-            log_messages=[self.convert(log) for log in result.log_messages],
+            log_messages=[self.convert(log) for log in log_messages],
             engine=proto.Engine(name=result.engine_name),
         )
 
